@@ -11,6 +11,9 @@ SIGS = {
     "pseudo3": ([((0, 1), 1), ((1, 1), 2), ((2, 0), 1)], [((2, 1), 1), ((0, 0), 2)]),
     "mixed3": ([((1, 0), 2), ((0, 0), 3), ((2, 0), 1)], [((1, 1), 2), ((0, 1), 1), ((1, 0), 1)]),
     "ps-first": ([((0, 1), 1), ((0, 0), 2)], [((0, 0), 1), ((0, 1), 2), ((1, 0), 1)]),  # first input skips the first target at M=3
+    # one common channel count on each side (what a fused single-convolution path would require), unsorted key order
+    "eq-vs->vs": ([((1, 0), 2), ((0, 0), 2)], [((1, 0), 2), ((0, 0), 2)]),
+    "eq-sv->tvs": ([((0, 0), 1), ((1, 0), 1)], [((2, 0), 2), ((1, 0), 2), ((0, 0), 2)]),
 }
 for a in T6:
     for b in T6:
@@ -19,6 +22,7 @@ SIGS3 = {
     "sv->sv": ([((0, 0), 2), ((1, 0), 1)], [((0, 0), 1), ((1, 0), 2)]),
     "vs->vs": ([((1, 0), 1), ((0, 0), 2)], [((1, 0), 2), ((0, 0), 1)]),
     "pseudo": ([((0, 1), 1), ((1, 1), 1)], [((1, 0), 1), ((0, 0), 2)]),
+    "eq-vs->vs": ([((1, 0), 2), ((0, 0), 2)], [((1, 0), 1), ((0, 0), 1)]),
 }
 for a in T6[:4]:
     for b in T6[:4]:
